@@ -378,6 +378,10 @@ def world_violation(pid, r):
         # unregistered component - is not a divergence)
         return "implementation panicked or produced an undecodable output where the model does not"
     pos, code = r["acc_pos"], r["acc_code"]
+    if code != 0 and r["eq"] and 0 <= pos < len(r["impl"]) and r["impl"][pos] == [9]:
+        # the implementation panicked at this operation and the faithful model predicts that very panic (a documented
+        # panic such as fetching an unregistered component): the specification has nothing to say about it
+        code = 0
     # the code of the rejected operation as the model reports it (positions count performed operations,
     # which differ from history positions when lazy actions are involved)
     op = r["extra"][1] if len(r.get("extra", [])) >= 2 and code != 0 else None
